@@ -157,6 +157,25 @@ class MetadataManager:
             self.lock_provider.acquire()
 
             try:
+                # On CAS backends, read the hint and its ETag BEFORE validating.
+                # The conditional PUT below succeeds only if the hint is still
+                # the object read here, so the version validated afterwards is
+                # the very version the flip replaces. Reading the ETag after
+                # validation (as before) let another committer flip the hint in
+                # between: the PUT then matched the NEWER hint and silently
+                # overwrote that acknowledged commit.
+                hint_etag: Optional[str] = None
+                filesystem_version: Optional[int] = None
+                previous_metadata_file: Optional[str] = None
+                if self.storage.supports_cas:
+                    try:
+                        hint_bytes, hint_etag = self.storage.read_file_with_etag(self.HINT_PATH)
+                        parsed = self._parse_hint_content(hint_bytes)
+                        if parsed is not None:
+                            filesystem_version, previous_metadata_file = parsed
+                    except FileNotFoundError:
+                        hint_etag = None
+
                 # PHASE 1: Validation (inside lock to prevent races)
                 current = self.refresh()
 
@@ -182,19 +201,8 @@ class MetadataManager:
                 # PHASE 2: Prepare new version
                 new_metadata.last_updated_ms = int(datetime.now().timestamp() * 1000)
 
-                # Read current version (and, on CAS backends, the hint's ETag so
-                # the commit point below can be a true compare-and-swap).
-                hint_etag: Optional[str] = None
-                filesystem_version: Optional[int] = None
-                previous_metadata_file: Optional[str] = None
-                if self.storage.supports_cas:
-                    try:
-                        hint_bytes, hint_etag = self.storage.read_file_with_etag(self.HINT_PATH)
-                        parsed = self._parse_hint_content(hint_bytes)
-                        if parsed is not None:
-                            filesystem_version, previous_metadata_file = parsed
-                    except FileNotFoundError:
-                        hint_etag = None
+                # Resolve the current version (on CAS backends it was parsed from
+                # the hint read together with its ETag above).
                 if filesystem_version is None:
                     info = self._current_version_info()
                     if info is not None:
